@@ -9,10 +9,10 @@ use serde_json::{json, Value};
 use vph::fgen::{self, *};
 use vph::refdec;
 
-pub const RULE: &str = "streams are built by the structure-aware generator fgen from a 23-axis choice vector (channels, depth incl. STREAMINFO-referenced depths, rate and its header coding, depth coding, total known/unknown, MD5 correct/zero/wrong, fixed/variable blocking, seek-table shape, frame count, block size and its coding, short/equal last block, coded-number length, padding, target PCM, subframe kind incl. LPC to order 32 with 15-bit coefficients, which subframes, wasted bits, residual method, partition order, Rice/escape parameters, stereo assignment incl. 33-bit side): ALL vectors with ≤3 (thorough ≤4) deviations from the plain stream, plus full single-axis sweeps (every LPC order × precision × shift class, every Rice parameter for both methods, every escape width, every wasted-bit count at every depth, every depth 1..32, every legal partition order for block sizes 16..64 and every order 0..15 on blocks of 512 / 4096 / 32768 samples, all stereo modes at 32 bit) and a header code-table sweep (every block-size code — 192, 576·2^k, 256·2^k, both explicit forms at 16/255/256/257/4096/65535 — × every sample-rate code — the 11 tabulated rates and the kHz / Hz / 10 Hz / STREAMINFO forms at their boundaries; every depth code × every channel-assignment code × fixed/variable blocking); each stream is first checked against the independent decoder (generator and reference must invert each other), then decoded by 7 reader front-ends and verify_reader in both build profiles; distinct outcomes = (deviating axes, verdict)";
+pub const RULE: &str = "streams are built by the structure-aware generator fgen from a 23-axis choice vector (channels, depth incl. STREAMINFO-referenced depths, rate and its header coding, depth coding, total known/unknown, MD5 correct/zero/wrong, fixed/variable blocking, seek-table shape, frame count, block size and its coding, short/equal last block, coded-number length, padding, target PCM, subframe kind incl. LPC to order 32 with 15-bit coefficients, which subframes, wasted bits, residual method, partition order, Rice/escape parameters, stereo assignment incl. 33-bit side): ALL vectors with ≤3 (thorough ≤5) deviations from the plain stream, plus full single-axis sweeps (every LPC order × precision × shift class, every Rice parameter for both methods, every escape width, every wasted-bit count at every depth, every depth 1..32, every legal partition order for block sizes 16..64 and every order 0..15 on blocks of 512 / 4096 / 32768 samples, all stereo modes at 32 bit) and a header code-table sweep (every block-size code — 192, 576·2^k, 256·2^k, both explicit forms at 16/255/256/257/4096/65535 — × every sample-rate code — the 11 tabulated rates and the kHz / Hz / 10 Hz / STREAMINFO forms at their boundaries; every depth code × every channel-assignment code × fixed/variable blocking); each stream is first checked against the independent decoder (generator and reference must invert each other), then decoded by 7 reader front-ends and verify_reader in both build profiles; distinct outcomes = (deviating axes, verdict)";
 pub const ASSUMPTIONS: &[&str] = &["target PCM limited to 5 signal kinds per stream; residual magnitudes follow from them", "vectors with more than 3 simultaneous deviations are only reached through the sweeps"];
 pub fn bounds(quick: bool) -> Value {
-    json!({"deviations": if quick { 3 } else { 4 }, "sweeps": "full", "header_tables": "every block-size / sample-rate / depth / channel-assignment code"})
+    json!({"deviations": if quick { 3 } else { 5 }, "sweeps": "full", "header_tables": "every block-size / sample-rate / depth / channel-assignment code"})
 }
 
 const READERS: [ReaderKind; 7] = [ReaderKind::SampleFill, ReaderKind::SampleRead, ReaderKind::SampleIter, ReaderKind::ByteLE, ReaderKind::ByteBE, ReaderKind::ByteFillLE, ReaderKind::Channel];
@@ -88,7 +88,7 @@ fn mono(bps: u8, n: usize, tkind: usize, sub: SubSpec) -> StreamSpec {
 pub fn run(ctx: &Ctx, acc: &mut Acc) {
     let m = menus();
     // ---- deviation-bounded lattice
-    for_each_deviation(&m, if ctx.quick { 3 } else { 4 }, |k| {
+    for_each_deviation(&m, if ctx.quick { 3 } else { 5 }, |k| {
         if !ctx.mine() {
             return;
         }
